@@ -56,7 +56,7 @@ static const uint64_t F_MINIMALIF = script_verify_flags{SCRIPT_VERIFY_MINIMALIF}
 #define TOP(i) st.it[st.n + (i)]    // TOP(-1) is the top
 #define PUSH(x) do { st.it[st.n] = (x); st.n++; } while (0)
 #define NEED(k) do { if (st.n < (k)) return SCRIPT_ERR_INVALID_STACK_OPERATION; } while (0)
-#define NUM(var, item) int64_t var; if (!r_decode(item, minimal, var)) return SCRIPT_ERR_UNKNOWN_ERROR
+#define NUM(var, item) int64_t var; if (!r_decode(item, minimal, var)) return SCRIPT_ERR_SCRIPTNUM   // operand longer than 4 bytes, or non-minimal under MINIMALDATA
 
 // executes one opcode on st; returns the script error (OK on success). alt: alt stack (for the TOALTSTACK/FROMALTSTACK pair)
 static int r_exec(int op, RStack& st, RStack& alt, uint64_t flags)
